@@ -19,7 +19,7 @@ for e in d["findings"]:
     if subj and subj in by_subj:
         new = by_subj[subj]
         if new != e["commit"]:
-            e["what"] = e["what"].replace(e["commit"], new)
+            e["what"] = e["what"].replace(e["commit"], new) if e["commit"] else e["what"]
             e["commit"] = new
     else:
         bad += 1
